@@ -11,11 +11,12 @@ structure WatchSt where
   deriving Inhabited
 
 /-- the fsnotify events of one modification, as observed on Linux/inotify with fsnotify v1.5:
-    append → Write; truncate-and-write of a non-empty file → Write, Write; new file with content → Create, Write -/
+    append → Write; emptied in place → Write; truncate-and-write of a non-empty file → Write, Write; new file with content → Create, Write -/
 def modEvents (mode : String) (name : String) : List FsEvent :=
   match mode with
   | "a" => [⟨.write, name⟩]
   | "t" => [⟨.write, name⟩, ⟨.write, name⟩]
+  | "e" => [⟨.write, name⟩]     -- truncated to nothing (`truncate(2)`): one IN_MODIFY
   | "c" => [⟨.create, name⟩, ⟨.write, name⟩]
   | "m" => [⟨.chmod, name⟩]
   | "r" => [⟨.remove, name⟩]
